@@ -77,7 +77,7 @@ def nsmap_case(rng):
     return a.encode(), b.encode()
 
 
-ANN_KEYS = ["a", "b", "tag", "param-tags", "c"]
+ANN_KEYS = ["a", "b", "tag", "param-tags", "c", "x/k", "y/k", "spec/tag", "my.lib/a", "x/a"]
 
 
 def gen_ann(rng):
@@ -174,6 +174,10 @@ def run(tier):
                 for full in (d, b"[" + d + b"]", b"{:k " + d + b"}"):
                     scripts.append("Q r0=%s" % h(full))
                     kinds.append(("reject", full, "scalar target"))
+        # the target / annotation gates also hold inside discarded forms
+        for d in (b"#_ ^:a 5 x", b"[1 #_ ^{:doc \"d\"} \"s\" 2]", b"{:k #_ ^:private :kw 1}", b"#_ [^:a 5] x", b"#_ ^:a nil ^:b [1]", b"#_ ^5 [1] x", b"[#_ ^:a]", b"#_ ^:a #_ 1 2.5 x"):
+            scripts.append("Q r0=%s" % h(d))
+            kinds.append(("reject", d, "gate inside discard"))
         for ann in ("5", "nil", "\\c", "1.5", "(a)", "#{a}", "#t x", "true"):
             d = ("^%s x" % ann).encode()
             scripts.append("Q r0=%s" % h(d))
